@@ -13,7 +13,7 @@ import (
 func init() {
 	register(Property{
 		ID:          "C06",
-		Explanation: "Decided statically: R1 who-may-call + dominance - the only invocation of Generator.GenerateType sits in a function whose only caller calls it inside the *types.Named arm of a type switch over the table entry's Type(), under the true edge of IsGeneratorEnabled(g, tags) with tags = result 0 of Doc(x.Obj()) for the same x; symmetric for *types.Alias / AliasGenerator.GenerateAliasType (plus the comma-ok assertion); the dispatch loop ranges once over a key list built from the package's type table and sorted (no nested loop, no second call); R2 the type table only holds package-scope objects (= C13.R1: no local types, no type parameters); R3 effective tags = merge(globals, package tags, declaration tags) in this order, merge overwrites key by key in argument order (later wins), package tags come only from the file doc comments of the processed package; R4 the enablement rule: prefix = \"gengo:\" + Name(); an exact `k == prefix` match returns Join(values) != \"false\" by itself; otherwise HasPrefix(k, prefix + \":\") (the colon keeps names that are prefixes of one another apart) only sets enabled = true; no other return inside the loop (map-order independent); R5 deferred callbacks run in a loop that is dominated by the success edge of doGenerate and dominates the emptiness test, the registration for writing and (C02.R2) every write; each callback is called once; the list is only appended by Defer. R1 also decides completeness: the only conditions on the way to a dispatcher call are the entry's kind, IsGeneratorEnabled, the error of an earlier dispatch and the package nil guard; R7 the tag extractor's classification and key/value split (C12.R4). R8 the doc comment of a declaration is found and attributed to it (C12.R1-R3, including that builder and lookup of the comment index map positions the same way). R5 also: every path through Defer appends its argument to the callback list. NOT decided: the full truth table of the enablement function over all tag sets (string predicates; would need symbolic evaluation).",
+		Explanation: "Decided statically: R1 who-may-call + dominance - the only invocation of Generator.GenerateType sits in a function whose only caller calls it inside the *types.Named arm of a type switch over the table entry's Type(), under the true edge of IsGeneratorEnabled(g, tags) with tags = result 0 of Doc(x.Obj()) for the same x; symmetric for *types.Alias / AliasGenerator.GenerateAliasType (plus the comma-ok assertion); the dispatch loop ranges once over a key list built from the package's type table and sorted (no nested loop, no second call); R2 the type table only holds package-scope objects (= C13.R1: no local types, no type parameters); R3 effective tags = merge(globals, package tags, declaration tags) in this order, merge overwrites key by key in argument order (later wins), package tags come only from the file doc comments of the processed package; R4 the enablement rule: prefix = \"gengo:\" + Name(); an exact `k == prefix` match returns Join(values) != \"false\" by itself; otherwise HasPrefix(k, prefix + \":\") (the colon keeps names that are prefixes of one another apart) only sets enabled = true; no other return inside the loop (map-order independent); R5 deferred callbacks run in a loop that is dominated by the success edge of doGenerate and dominates the emptiness test, the registration for writing and (C02.R2) every write; each callback is called once; the list is only appended by Defer. R1 also decides completeness: the only conditions on the way to a dispatcher call are the entry's kind, IsGeneratorEnabled, the error of an earlier dispatch and the package nil guard; R7 the tag extractor's classification and key/value split (C12.R4). R8 the doc comment of a declaration is found and attributed to it (C12.R1-R3, including that builder and lookup of the comment index map positions the same way). R5 also: every path through Defer appends its argument to the callback list. NOT decided: the full truth table of the enablement function over all tag sets (string predicates; would need symbolic evaluation). Round 8: R9 the generators a package is processed with are the per-package function's own parameter, never assigned, and the generator loop ranges over it.",
 		Assumptions: commonAssumptions,
 		Run:         runC06,
 	})
